@@ -207,6 +207,9 @@ class ValueMapping:
         # Attributes for converting Values strings to binary values:
         self._v2b_dict = {}  # values: bin (int or tuple)
 
+        # Items in qualifier order; tuple(bin (int or tuple or None), values)
+        self._items_list = []
+
     @classmethod
     def for_property(cls, server, namespace, classname, propname,
                      values_default=None):
@@ -686,11 +689,13 @@ class ValueMapping:
         vm._b2v_range_tuple_list = []
         vm._b2v_unclaimed = None
         vm._v2b_dict = OrderedDict()
+        vm._items_list = []
         for i, valuemap_str in enumerate(valuemap_list):
             values_str = values_list[i]
             if valuemap_str == '..':
                 vm._b2v_unclaimed = values_str
                 vm._v2b_dict[values_str] = None
+                vm._items_list.append((None, values_str))
             else:
                 lo, hi, values_str = vm._values_tuple(
                     i, valuemap_list, values_list, cimtype)
@@ -698,10 +703,12 @@ class ValueMapping:
                     # single value
                     vm._b2v_single_dict[lo] = values_str
                     vm._v2b_dict[values_str] = lo
+                    vm._items_list.append((lo, values_str))
                 else:
                     # value range
                     vm._b2v_range_tuple_list.append((lo, hi, values_str))
                     vm._v2b_dict[values_str] = (lo, hi)
+                    vm._items_list.append(((lo, hi), values_str))
 
         return vm
 
@@ -992,6 +999,4 @@ class ValueMapping:
           string.
         """
 
-        for values_str in self._v2b_dict:
-            element_value = self._v2b_dict[values_str]
-            yield element_value, values_str
+        yield from self._items_list
